@@ -7,6 +7,7 @@ package tlstcp
 //@ struct dialer
 //@   lock lock level 50
 //@   guarded_by lock: maxRecvSize config
+//@   pointee_guarded_by lock: d
 //@   immutable: addr proto hs d
 //@
 //@ struct listener
